@@ -1,5 +1,6 @@
 //! mp4mc — bounded exhaustive exploration of alfg/mp4-rust (see /verif/DESIGN.md).
 
+mod boxgen;
 mod common;
 mod e3;
 mod env;
@@ -67,6 +68,9 @@ fn main() {
             "C16" => props::c16::run(tier, seed),
             "C01" => props::c01::run(tier, seed),
             "C10" => props::c10::run(tier, seed),
+            "C04" => props::c04::run(tier, seed),
+            "C05" => props::c05::run(tier, seed),
+            "C13" => props::c13::run(tier, seed),
             "C12" => props::c12::run(tier, seed),
             "C18" => props::c18::run(tier, seed),
             "C09" => props::c09::run(tier, seed),
